@@ -53,10 +53,19 @@ class UserErr(Exception):
     pass
 
 
+class UserBase(BaseException):
+    pass
+
+
 def setup(ctx):
     global main, stm
     from sc3.base.main import main
     from sc3.base import stream as stm
+
+
+def teardown(ctx):
+    for w in RT:
+        w.close()
 
 
 # --- direct stage: reference state machine -------------------------------------
@@ -101,7 +110,7 @@ def model_next(rs, i, inval, log):
         if k == 'raise':
             r.state = 'done'
             r.live = False
-            return ('exc', 'UserErr')
+            return ('exc', 'UserBase' if len(op) > 1 else 'UserErr')
         if k == 'yar':
             r.state = 'init'
             r.live = False
@@ -171,7 +180,8 @@ def run_direct(case, v):
                 elif k == 'ret':
                     return
                 elif k == 'raise':
-                    raise UserErr('boom')
+                    # (a failure is a failure: also one that is no Exception)
+                    raise (UserBase if len(op) > 1 else UserErr)('boom')
                 elif k == 'yar':
                     raise stm.YieldAndReset(op[1])
                 elif k == 'ay':
@@ -189,6 +199,8 @@ def run_direct(case, v):
                         res = ('exc', 'StopStream')
                     except UserErr:
                         res = ('exc', 'UserErr')
+                    except UserBase:
+                        res = ('exc', 'UserBase')
                     log.append(('nested', i, j, res))
                     if main.current_tt is not rts[i]:
                         v.fail('current_thread_after_nested',
@@ -229,6 +241,8 @@ def run_direct(case, v):
                 got = ('exc', 'StopStream')
             except UserErr:
                 got = ('exc', 'UserErr')
+            except UserBase:
+                got = ('exc', 'UserBase')
             exp = model_next(mrs, op[1], op[2], mlog)
             if got != exp:
                 v.fail('next_result',
@@ -287,7 +301,8 @@ def direct_cases(draw):
             elif k == 6:
                 ops.append(['ret'])
             elif k == 7:
-                ops.append(['raise'])
+                ops.append(['raise', 'base'] if draw(st.integers(0, 2)) == 0
+                           else ['raise'])
             elif k == 8:
                 ops.append(['yar', draw(st.sampled_from(VALUES))])
             elif k == 9:
@@ -415,9 +430,97 @@ def run_cond(p, v):
     return {'nontrivial': multi, 'labels': labels}
 
 
+# --- rt_restore stage ------------------------------------------------------------------
+# Real-time mode (simulation): after routines on any clock - AppClock included
+# - have yielded, returned or raised, the main thread is the current thread
+# again and its logical time is its own present: a routine then stepped by
+# hand from the main thread runs at the caller's time.
+
+RT = []
+
+
+@st.composite
+def restore_programs(draw):
+    nclocks = draw(st.integers(0, 1))
+    clocks = [{'tempo': draw(st.sampled_from([1, 2])), 'beats': None}
+              for _ in range(nclocks)]
+    refs = ['sys', 'app', 'app'] + list(range(nclocks))
+    routines, top = {}, []
+    tag = 0
+    for i in range(draw(st.integers(1, 3))):
+        body = []
+        for _ in range(draw(st.integers(1, 3))):
+            tag += 1
+            body += [['log', tag],
+                     ['wait', draw(st.sampled_from([0, 0.125, 0.25]))]]
+        end = draw(st.sampled_from(['return', 'raise', 'hang', 'return']))
+        body = body[:-1] if end != 'hang' else body[:-1] + [['yield', 'x']]
+        if end == 'raise':
+            body.append(['raise', 'ValueError'])
+        routines[f'r{i}'] = {'body': body}
+        top.append(['play', f'r{i}', draw(st.sampled_from(refs)), 0])
+    hb = []
+    steps = draw(st.integers(1, 4))
+    for _ in range(steps):
+        tag += 1
+        hb += [['log', tag], ['wait', 1]]
+    routines['h0'] = {'body': hb}
+    for _ in range(steps):
+        top.append(['tsleep', draw(st.sampled_from([0.0625, 0.25, 0.5, 1]))])
+        top.append(['next', 'h0'])
+    return {'prog': {'clocks': clocks, 'routines': routines, 'top': top,
+                     'tail': 0},
+            'tape': draw(st.lists(st.integers(0, 11), max_size=40))}
+
+
+def run_restore(case, v):
+    p = case['prog']
+    if not RT:
+        from vlib import workers
+        RT.append(workers.rtsim_worker())
+    out = RT[0].ask({'prog': p, 'tape': case['tape'], 'horizon': 2.0})
+    if 'deadlock' in out or 'error' in out:
+        v.fail('rt_run_failed', str(out)[:600])
+        return {'nontrivial': False, 'labels': ['rt_failed']}
+    call = None
+    ends = set()
+    for x in out['trace']:
+        if x['kind'] == 'next_call':
+            call = x
+            if abs(x['secs'] - x['phys']) > 1e-9:
+                v.fail('main_thread_logical_time',
+                       f'routine stepped from the main thread at physical '
+                       f'time {x["phys"]}: the caller\'s logical time is '
+                       f'{x["secs"]}')
+                break
+        elif x['kind'] == 'log' and x['r'] == 'h0' and call is not None:
+            if abs(x['secs'] - call['phys']) > 1e-9:
+                v.fail('stepped_routine_time',
+                       f'stepped at {call["phys"]}, routine sees '
+                       f'{x["secs"]}')
+                break
+        elif x['kind'] == 'end':
+            if not x['current_is_main']:
+                v.fail('current_thread_not_restored',
+                       'after the run main.current_tt is not the main thread')
+    for r in p['routines'].values():
+        if r['body'] and r['body'][-1][0] == 'raise':
+            ends.add('raised')
+        elif r['body'] and r['body'][-1][0] == 'yield':
+            ends.add('hung')
+        else:
+            ends.add('returned')
+    app = any(op[0] == 'play' and op[2] == 'app' for op in p['top'])
+    labels = sorted('end:' + e for e in ends) + (['appclock'] if app else [])
+    return {'nontrivial': app and bool(ends & {'raised', 'returned'}),
+            'labels': labels}
+
+
 def stages(ctx):
     return [
         Stage('direct', run_direct, direct_cases(), quick=1500,
               thorough=12000),
         Stage('cond', run_cond, cond_programs(), quick=500, thorough=5000),
+        Stage('rt_restore', run_restore, restore_programs(), quick=150,
+              thorough=1500),
     ]
